@@ -37,12 +37,22 @@ def rand_spec(rng):
                               "x": rng.randint(8, 40) / 64, "c": rng.choice([0, 8, 160, 256]), "g": rng.choice([0, 0, 4]),
                               "imax": rng.randint(16, 40) / 64, "par": rng.choice([1, 1, 2, 3]), "is": True})
     for k in range(rng.choice([1, 1, 2])):
-        spec["trafos"].append({"id": k, "hv": nb, "lv": k % nb, "std": rng.choice(["25 MVA 110/20 kV", "40 MVA 110/20 kV"])})
+        spec["trafos"].append({"id": k, "hv": nb, "lv": k % nb, "std": rng.choice(["25 MVA 110/20 kV", "40 MVA 110/20 kV"]),
+                               "shift_add": rng.choice([0, 0, 5.0])})
     lid = 0
     for b in buses:
         for _ in range(rng.choice([0, 1, 1, 2])):
             spec["loads"].append({"id": lid, "bus": b, "p": rng.randint(0, 24) / 16, "q": rng.randint(-4, 12) / 16, "is": True})
             lid += 1
+    # a busbar section behind a coupler with a contact impedance (closed bus-bus switch, z_ohm > 0)
+    if rng.random() < 0.4:
+        sec = nb + 1
+        spec["buses"].append((sec, 20.0))
+        a = rng.choice(buses)
+        spec["switches"].append({"bus": a, "el": sec, "closed": True, "z": rng.choice([0.25, 0.5, 1.0])} if rng.random() < 0.5
+                                else {"bus": sec, "el": a, "closed": True, "z": rng.choice([0.25, 0.5, 1.0])})
+        spec["loads"].append({"id": lid, "bus": sec, "p": rng.randint(4, 24) / 16, "q": rng.randint(0, 8) / 16, "is": True})
+        lid += 1
     sid = 0
     for b in buses:
         if rng.random() < 0.3:
@@ -53,14 +63,20 @@ def rand_spec(rng):
 
 def build(spec):
     net = pp.create_empty_network(sn_mva=spec["sn_mva"])
-    for b, vn in spec["buses"]:
-        pp.create_bus(net, vn_kv=vn, index=b)
+    for bb in spec["buses"]:
+        pp.create_bus(net, vn_kv=bb[1], index=bb[0], in_service=(bb[2] if len(bb) > 2 else True))
     for l in spec["lines"]:
         pp.create_line_from_parameters(net, l["f"], l["t"], length_km=l["len"], r_ohm_per_km=l["r"], x_ohm_per_km=l["x"],
                                        c_nf_per_km=l["c"], g_us_per_km=l["g"], max_i_ka=l["imax"], parallel=l["par"],
                                        in_service=l["is"], index=l["id"])
     for t in spec["trafos"]:
-        pp.create_transformer(net, t["hv"], t["lv"], std_type=t["std"], index=t["id"])
+        if t.get("std") is None:
+            pp.create_transformer_from_parameters(net, t["hv"], t["lv"], sn_mva=10, vn_hv_kv=20, vn_lv_kv=20, vkr_percent=0.5,
+                                                  vk_percent=5, pfe_kw=0, i0_percent=0, index=t["id"])
+        else:
+            pp.create_transformer(net, t["hv"], t["lv"], std_type=t["std"], index=t["id"])
+        if t.get("shift_add"):
+            net.trafo.at[t["id"], "shift_degree"] = net.trafo.at[t["id"], "shift_degree"] + t["shift_add"]
     for l in spec["loads"]:
         pp.create_load(net, l["bus"], p_mw=l["p"], q_mvar=l["q"], in_service=l["is"], index=l["id"])
     for s in spec["sgens"]:
@@ -68,7 +84,7 @@ def build(spec):
     for b, vm in spec["ext"]:
         pp.create_ext_grid(net, b, vm_pu=vm)
     for s in spec["switches"]:
-        pp.create_switch(net, s["bus"], s["el"], et="b", closed=s["closed"], z_ohm=0.0)
+        pp.create_switch(net, s["bus"], s["el"], et="b", closed=s["closed"], z_ohm=s.get("z", 0.0))
     return net
 
 
@@ -119,10 +135,10 @@ def _same_all(r1, r2, bmap=None, maps=None):
 
 def t_relabel(rng, spec):
     s2 = copy.deepcopy(spec)
-    ids = [b for b, _ in spec["buses"]]
+    ids = [bb[0] for bb in spec["buses"]]
     new = rng.sample(range(0, 3 * len(ids) + 4), len(ids))
     bm = dict(zip(ids, new))
-    s2["buses"] = [(bm[b], vn) for b, vn in spec["buses"]]
+    s2["buses"] = [tuple([bm[bb[0]]] + list(bb[1:])) for bb in spec["buses"]]
     rng.shuffle(s2["buses"])
     maps = {}
     for tab, keys in (("lines", ("f", "t")), ("trafos", ("hv", "lv")), ("loads", ("bus",)), ("sgens", ("bus",))):
@@ -136,7 +152,7 @@ def t_relabel(rng, spec):
         rng.shuffle(s2[tab])
         maps[{"lines": "line", "trafos": "trafo", "loads": "load", "sgens": "sgen"}[tab]] = (lambda em: (lambda i: em[i]))(em)
     s2["ext"] = [(bm[b], vm) for b, vm in spec["ext"]]
-    s2["switches"] = [{"bus": bm[s["bus"]], "el": bm[s["el"]], "closed": s["closed"]} for s in spec["switches"]]
+    s2["switches"] = [dict(s, bus=bm[s["bus"]], el=bm[s["el"]]) for s in spec["switches"]]
     return s2, (lambda r1, r2: _same_all(r1, r2, lambda b: bm[b], maps)), "relabel+permute"
 
 
@@ -202,7 +218,7 @@ def t_swap(rng, spec):
 
 def t_inert(rng, spec):
     s2 = copy.deepcopy(spec)
-    B = [b for b, vn in spec["buses"] if vn == 20.0]
+    B = [bb[0] for bb in spec["buses"] if bb[1] == 20.0]
     nl = max([x["id"] for x in s2["loads"]] + [-1]) + 1
     s2["loads"].append({"id": nl, "bus": rng.choice(B), "p": 1.5, "q": 0.5, "is": False})
     s2["loads"].append({"id": nl + 1, "bus": rng.choice(B), "p": 0.0, "q": 0.0, "is": True})
@@ -218,9 +234,9 @@ def t_inert(rng, spec):
 def t_fuse(rng, spec):
     """split a bus into two buses joined by a closed zero-impedance switch, moving some of its elements"""
     s2 = copy.deepcopy(spec)
-    B = [b for b, vn in spec["buses"] if vn == 20.0]
+    B = [bb[0] for bb in spec["buses"] if bb[1] == 20.0]
     b = rng.choice(B)
-    nb = max(x for x, _ in spec["buses"]) + 1
+    nb = max(bb[0] for bb in spec["buses"]) + 1
     s2["buses"].append((nb, 20.0))
     moved = 0
     for tab, keys in (("lines", ("f", "t")), ("loads", ("bus",)), ("sgens", ("bus",))):
@@ -241,7 +257,34 @@ def t_fuse(rng, spec):
     return s2, chk, "split bus %d by a closed switch (%d terminals moved)" % (b, moved)
 
 
-TRANSFORMS = [t_sn_mva, t_relabel, t_split, t_parallel, t_swap, t_inert, t_fuse]
+def t_dead_appendix(rng, spec):
+    """inert elements: an out-of-service bus tied to an in-service bus by a closed zero-impedance bus-bus switch (either
+    column order), with a transformer to a further bus carrying a load: nothing of it may take part in the solution"""
+    s2 = copy.deepcopy(spec)
+    B = [bb[0] for bb in spec["buses"] if bb[1] == 20.0]
+    b = rng.choice(B)
+    x = max(bb[0] for bb in spec["buses"]) + 1
+    y = x + 1
+    s2["buses"].append((x, 20.0, False))
+    s2["buses"].append((y, 20.0, True))
+    s2["switches"].append({"bus": x, "el": b, "closed": True} if rng.random() < 0.6 else {"bus": b, "el": x, "closed": True})
+    s2["trafos"].append({"id": max(t["id"] for t in s2["trafos"]) + 1, "hv": x, "lv": y, "std": None})
+    nl = max([l["id"] for l in s2["loads"]] + [-1]) + 1
+    s2["loads"].append({"id": nl, "bus": y, "p": 0.75, "q": 0.25, "is": True})
+
+    def chk(r1, r2):
+        bad = _same_all(r1, r2)
+        for q in (x, y):
+            if not all(v != v for v in r2["bus"][q]):
+                bad.append("bus %d behind the out-of-service bus %d reports a voltage %s" % (q, x, r2["bus"][q]))
+        pq = r2["load"][nl]
+        if not (pq[0] == 0 and (pq[1] == 0 or pq[1] != pq[1])):      # q is NaN in a DC power flow
+            bad.append("load at the dead bus %d reports power %s" % (y, r2["load"][nl]))
+        return bad
+    return s2, chk, "dead appendix behind out-of-service bus %d at bus %d" % (x, b)
+
+
+TRANSFORMS = [t_sn_mva, t_sn_mva, t_relabel, t_split, t_parallel, t_swap, t_inert, t_fuse, t_dead_appendix]
 
 
 def _pair(ctx, rng, k, spec=None, tname=None, forced=None):
@@ -276,6 +319,17 @@ def _pair(ctx, rng, k, spec=None, tname=None, forced=None):
             pass
     for w in bad[:1]:
         ctx.violation(kind, "%s: %s" % (what, w), case)
+    # the same pair under the DC power flow (linear: no solver tolerance involved)
+    try:
+        d1, d2 = build(spec), build(s2)
+        pp.rundcpp(d1)
+        pp.rundcpp(d2)
+        bad_dc = chk(results(d1), results(d2))
+        ctx.count("dc_pairs")
+        for w in bad_dc[:1]:
+            ctx.violation("spec", "rundcpp, %s: %s" % (what, w), dict(case, dc=True))
+    except Exception as e:
+        ctx.count("dc_pair_raised_" + type(e).__name__)
     ctx.case(case, nontrivial=True, sample={"transform": what, "buses": len(spec["buses"])} if k < 3 else None)
     ctx.count(tf.__name__)
     return n1
@@ -361,13 +415,14 @@ def _corr_tolerance(ctx, rng):
 
 
 def _corpus(ctx):
-    """witness of the recorded finding C05-tolerance-per-unit: sn_mva 1 -> 100 on a fixed generated net"""
-    import random
-    spec = rand_spec(random.Random(76))
-    spec["sn_mva"] = 1.0
-    s2 = copy.deepcopy(spec)
-    s2["sn_mva"] = 100.0
-    _pair(ctx, random.Random(0), 99, spec=spec, tname="t_sn_mva", forced=(s2, (lambda r1, r2: _same_all(r1, r2)), "sn_mva 1.0->100.0 (corpus)"))
+    """witness of the recorded finding C05-tolerance-per-unit (corpus/C05/tolerance_per_unit.json): sn_mva 1 -> 100"""
+    import json, os, random
+    f = os.path.join(cq.VERIF, "corpus", "C05", "tolerance_per_unit.json")
+    if not os.path.exists(f):
+        return
+    w = json.load(open(f))
+    _pair(ctx, random.Random(0), 99, spec=w["spec"], tname="t_sn_mva",
+          forced=(w["spec2"], (lambda r1, r2: _same_all(r1, r2)), "sn_mva 1.0->100.0 (corpus)"))
     ctx.count("corpus")
 
 
